@@ -115,7 +115,7 @@ ASSIGN = [
         "sid": ("identifier_gfa2", [(V, "B"), (WS, "a b"), (WS, ""), (WT, 5)]),
         "RC": ("i", [(V, 7), (WS, "x"), (WT, [1])]),
     })), ["sid"]),
-    ("E1", "gfa2", "E\te1\tA+\tB-\t0\t2\t2\t4$\t2M\tTS:i:5\txi:i:1", ["S\tA\t4\t*", "S\tB\t4\t*"], {
+    ("E1", "gfa2", "E\te1\tA+\tB-\t0\t4$\t0\t4$\t2M\tTS:i:5\txi:i:1", ["S\tA\t4\t*", "S\tB\t4\t*"], {
         "beg1": ("position_gfa2", POS2),
         "end2": ("position_gfa2", POS2),
         "alignment": ("alignment_gfa2", [(V, "3M"), (V, "*"), (V, "1,2,3"), (V, ("@Alignment", "2M1D", "gfa2")),
@@ -132,7 +132,7 @@ ASSIGN = [
                                      (WT, 1.5), (WT, [1])]),
         "xz": ("Z", tagvals("Z")),
     }, []),
-    ("F1", "gfa2", "F\tA\tr1+\t0\t2\t1\t3$\t*\txf:f:1.5", ["S\tA\t4\t*"], {
+    ("F1", "gfa2", "F\tA\tr1+\t0\t4$\t0\t3$\t*\txf:f:1.5", ["S\tA\t4\t*"], {
         "s_beg": ("position_gfa2", POS2),
         "f_end": ("position_gfa2", POS2),
         "external": ("oriented_identifier_gfa2", [(V, "r2-"), (WS, "r2"), (WS, ""), (WT, 5)]),
